@@ -50,3 +50,7 @@ package absnfs
 // requests (no truncation or second write that a concurrent WRITE's acknowledged data could be lost to)
 //@ also AbsfsNFS.WriteWithContext
 //@ ensures [one-backend-write] {C01} mutlog <= old(mutlog) + 3
+// a READ whose backend read failed (with anything but end-of-file) is not answered as a success with the bytes that
+// happened to arrive: the count of an NFS3_OK reply is the full min(requested, transfer size, size - offset)
+//@ also AbsfsNFS.ReadWithContext
+//@ ensures [backend-read-error-fails-the-read] {C01} isnil(result1) && len(result0) > 0 ==> !lastreadfailed
